@@ -165,6 +165,20 @@ def rule_score(ctx):
     ok = 'self._scoreq.add(bndl[0], type(self)._Entry(bndl, msg))' in src and \
         U.before(src, 'bndl = self._process_bndl_time(', 'self._scoreq.add(bndl[0]')
     ctx.ob('C07.score', f'{a.fq}:queued-time', ok, 'the entry is queued at its processed logical time', a.node, a.module)
+    # every add() must create a distinct queue item: TaskQueue treats an equal item as a re-insertion (the earlier one is removed)
+    ctor = None
+    for c in U.calls(a.node):
+        if U.method_name(c) == 'add' and norm(c.func.value) == 'self._scoreq' and len(c.args) == 2 and isinstance(c.args[1], ast.Call):
+            ctor = c.args[1]
+    ctx.ob('C07.score', f'{a.fq}:fresh-entry', ctor is not None, 'each bundle is queued as a freshly constructed entry', a.node, a.module)
+    if ctor is not None:
+        cname = norm(ctor.func).split('.')[-1]
+        cands = [ci for ci in repo.classes.values() if ci.name == cname and ci.module is a.module]
+        for ci in cands:
+            over = [m for c_ in repo.mro(ci) for m in ('__eq__', '__hash__') if m in c_.methods]
+            ctx.ob('C07.score', f'{ci.fq}:identity-semantics', not over,
+                   f'{ci.qualname} defines {over}: two bundles that compare equal (same time and bytes) count as one queue item, so the second '
+                   f'add() removes the first: the score drops a bundle and reorders equal-time sends', ci.node, ci.module)
     f = repo.func('sc3.base._oscinterface:OscScore.finish')
     body = _strip_doc(f.node.body)
     loops = [s for s in body if isinstance(s, ast.For)]
@@ -288,6 +302,9 @@ MUTANTS = [
          old="_OSC_TO_SECONDS = 1 / pow(2, 32)", new="_OSC_TO_SECONDS = 1 / pow(2, 31)"),
     dict(rule='C07.conv', name='offset sign flipped in inverse', file='sc3/base/clock.py',
          old="return float(osctime - cls._elapsed_osc_offset) * cls._OSC_TO_SECONDS", new="return float(osctime + cls._elapsed_osc_offset) * cls._OSC_TO_SECONDS"),
+    dict(rule='C07.score', name='score entries compare by value', file='sc3/base/_oscinterface.py',
+         old="            self.msg = msg\n            # *** NOTE: May need to define __eq__ and __hash__ for TaskQueue.\n",
+         new="            self.msg = msg\n\n        def __eq__(self, other):\n            return self.msg == other.msg\n\n        def __hash__(self):\n            return hash(self.msg)\n"),
 ]
 
 REPAIRS = []
